@@ -117,8 +117,15 @@ func (a *IBCAdapter) ParsePacket(
 		return nil, err
 	}
 
+	// The packet data has not been validated by the ICS-20 application yet, so the
+	// coin is validated here instead of being built with the panicking constructor.
+	coin := sdk.Coin{Denom: denom, Amount: amount}
+	if err := coin.Validate(); err != nil {
+		return nil, errorsmod.Wrap(err, "invalid coin")
+	}
+
 	return &types.ParsedData{
-		Coin:    sdk.NewCoin(denom, amount),
+		Coin:    coin,
 		Payload: *payload,
 	}, nil
 }
